@@ -9,6 +9,7 @@ import (
 	"path/filepath"
 	"sort"
 	"sync"
+	"sync/atomic"
 	"time"
 
 	"github.com/opencontainers/go-digest"
@@ -54,6 +55,9 @@ type xferResult struct {
 	hasherStats      map[string][]*types.Stat
 	log              *evLog
 	overlaps         [4]int32
+	late             [2]int32
+	alive            int
+	aliveAt          string
 	leaked           int
 }
 
@@ -161,6 +165,8 @@ func runXfer(src fsutil.FS, dest string, o xferOpts, log *evLog) *xferResult {
 		}
 	}
 	res.overlaps = [4]int32{s.overlapS, s.overlapR, r.overlapS, r.overlapR}
+	res.alive, res.aliveAt = waitQuiesce(300 * time.Millisecond)
+	res.late = [2]int32{atomic.LoadInt32(&s.late), atomic.LoadInt32(&r.late)}
 	return res
 }
 
@@ -359,6 +365,7 @@ func hSync(o Op) map[string]interface{} {
 		"view": view, "before": snapsToJSON(before), "after": snapsToJSON(after),
 		"log": logJSON(log, false), "notif": notifsJSON(res, sent, dest),
 		"overlaps": []int32{res.overlaps[0], res.overlaps[1], res.overlaps[2], res.overlaps[3]}, "leaked": res.leaked,
+		"late": []int32{res.late[0], res.late[1]}, "alive": res.alive, "alive_at": res.aliveAt,
 	}
 	if res.recvErr != nil {
 		out["recverr"] = res.recvErr.Error()
